@@ -36,6 +36,10 @@ type scen struct {
 	mode    bytepipe.Mode
 	corrupt int64 // -1 none; else the bad length prefix value
 	corrAt  int   // index of the packet whose prefix is replaced (raw single writer)
+	// endWithData: the (single) writer closes the byte stream after its last
+	// packet and the underlying Read hands over the final bytes together with
+	// io.EOF (n > 0 and err != nil in one call)
+	endWithData bool
 }
 
 func pkt(w, i, size int) []byte {
@@ -64,7 +68,7 @@ func frame(body []byte) []byte {
 
 func body(sc scen) func() {
 	return func() {
-		pipe := &bytepipe.Pipe{Mode: sc.mode}
+		pipe := &bytepipe.Pipe{Mode: sc.mode, ErrWithLastData: sc.endWithData}
 		back := &bytepipe.Pipe{}
 		ctx, cancel := context.WithCancel(context.Background())
 		defer cancel()
@@ -81,6 +85,9 @@ func body(sc scen) func() {
 				wg.Add(1)
 				vsync.GoNamed(fmt.Sprintf("writer%d", wi), func() {
 					defer wg.Done()
+					if sc.endWithData {
+						defer pipe.CloseWith(io.EOF)
+					}
 					for i, sz := range sizes {
 						if sc.corrupt >= 0 && i == sc.corrAt {
 							// raw bytes with a bad length prefix, then the body
@@ -127,6 +134,9 @@ func body(sc scen) func() {
 				wg.Add(1)
 				vsync.GoNamed(fmt.Sprintf("writer%d", wi), func() {
 					defer wg.Done()
+					if sc.endWithData {
+						defer pipe.CloseWith(io.EOF)
+					}
 					for i, sz := range sizes {
 						if sc.corrupt >= 0 && i == sc.corrAt {
 							m, _ := sessMsg(wi, i, sz).MarshalVT()
@@ -268,27 +278,30 @@ func check(sc scen) func(x *vsync.Exec) string {
 
 func scenarios(quick bool) []scen {
 	s := []scen{
-		{"pc/1w-1,6,2/buf10/explore", "pc", [][]int{{1, 6, 2}}, 10, bytepipe.Explore, -1, 0},
-		{"pc/1w-1,6,2/buf6/onebyte", "pc", [][]int{{1, 6, 2}}, 6, bytepipe.OneByte, -1, 0},
-		{"pc/2w-5+6,1/buf6/full", "pc", [][]int{{5}, {6, 1}}, 6, bytepipe.Full, -1, 0},
-		{"pc/2w-2+5/buf6/explore", "pc", [][]int{{2}, {5}}, 6, bytepipe.Explore, -1, 0},
-		{"pc/1w-2,5,1/buf3-short/full", "pc", [][]int{{2, 5, 1}}, 3, bytepipe.Full, -1, 0},
-		{"pc/corrupt0@1/explore", "pc", [][]int{{2, 3, 1}}, 6, bytepipe.Explore, 0, 1},
-		{"pc/corrupt7@1/explore", "pc", [][]int{{2, 3, 1}}, 6, bytepipe.Explore, 7, 1},
-		{"pc/corruptffffffff@0/full", "pc", [][]int{{2, 1}}, 6, bytepipe.Full, 0xffffffff, 0},
-		{"sess/1w-4,0,6/explore", "sess", [][]int{{4, 0, 6}}, 0, bytepipe.Explore, -1, 0},
-		{"sess/2w-6+3,4/full", "sess", [][]int{{6}, {3, 4}}, 0, bytepipe.Full, -1, 0},
-		{"sess/1w-3,5/onebyte", "sess", [][]int{{3, 5}}, 0, bytepipe.OneByte, -1, 0},
-		{"sess/corrupt7@1/explore", "sess", [][]int{{5, 3, 4}}, 0, bytepipe.Explore, 7, 1},
-		{"sess/corrupt0@1/full", "sess", [][]int{{5, 3, 4}}, 0, bytepipe.Full, 0, 1},
+		{"pc/1w-1,6,2/buf10/explore", "pc", [][]int{{1, 6, 2}}, 10, bytepipe.Explore, -1, 0, false},
+		{"pc/1w-1,6,2/buf6/onebyte", "pc", [][]int{{1, 6, 2}}, 6, bytepipe.OneByte, -1, 0, false},
+		{"pc/2w-5+6,1/buf6/full", "pc", [][]int{{5}, {6, 1}}, 6, bytepipe.Full, -1, 0, false},
+		{"pc/2w-2+5/buf6/explore", "pc", [][]int{{2}, {5}}, 6, bytepipe.Explore, -1, 0, false},
+		{"pc/1w-2,5,1/buf3-short/full", "pc", [][]int{{2, 5, 1}}, 3, bytepipe.Full, -1, 0, false},
+		{"pc/corrupt0@1/explore", "pc", [][]int{{2, 3, 1}}, 6, bytepipe.Explore, 0, 1, false},
+		{"pc/corrupt7@1/explore", "pc", [][]int{{2, 3, 1}}, 6, bytepipe.Explore, 7, 1, false},
+		{"pc/corruptffffffff@0/full", "pc", [][]int{{2, 1}}, 6, bytepipe.Full, 0xffffffff, 0, false},
+		{"pc/1w-2,5/buf6/full/eof-with-last-data", "pc", [][]int{{2, 5}}, 6, bytepipe.Full, -1, 0, true},
+		{"pc/1w-1,6,2/buf10/explore/eof-with-last-data", "pc", [][]int{{1, 6, 2}}, 10, bytepipe.Explore, -1, 0, true},
+		{"sess/1w-3,5/full/eof-with-last-data", "sess", [][]int{{3, 5}}, 0, bytepipe.Full, -1, 0, true},
+		{"sess/1w-4,0,6/explore", "sess", [][]int{{4, 0, 6}}, 0, bytepipe.Explore, -1, 0, false},
+		{"sess/2w-6+3,4/full", "sess", [][]int{{6}, {3, 4}}, 0, bytepipe.Full, -1, 0, false},
+		{"sess/1w-3,5/onebyte", "sess", [][]int{{3, 5}}, 0, bytepipe.OneByte, -1, 0, false},
+		{"sess/corrupt7@1/explore", "sess", [][]int{{5, 3, 4}}, 0, bytepipe.Explore, 7, 1, false},
+		{"sess/corrupt0@1/full", "sess", [][]int{{5, 3, 4}}, 0, bytepipe.Full, 0, 1, false},
 	}
 	if !quick {
 		s = append(s,
-			scen{"pc/2w-1,6+5,2/buf6/explore", "pc", [][]int{{1, 6}, {5, 2}}, 6, bytepipe.Explore, -1, 0},
-			scen{"pc/1w-6,6,6/buf6/explore", "pc", [][]int{{6, 6, 6}}, 6, bytepipe.Explore, -1, 0},
-			scen{"pc/corruptffffffff@2/explore", "pc", [][]int{{1, 2, 3}}, 6, bytepipe.Explore, 0xffffffff, 2},
-			scen{"sess/2w-6,0+3,4/explore", "sess", [][]int{{6, 0}, {3, 4}}, 0, bytepipe.Explore, -1, 0},
-			scen{"sess/corruptffffffff@0/explore", "sess", [][]int{{5, 3}}, 0, bytepipe.Explore, 0xffffffff, 0},
+			scen{"pc/2w-1,6+5,2/buf6/explore", "pc", [][]int{{1, 6}, {5, 2}}, 6, bytepipe.Explore, -1, 0, false},
+			scen{"pc/1w-6,6,6/buf6/explore", "pc", [][]int{{6, 6, 6}}, 6, bytepipe.Explore, -1, 0, false},
+			scen{"pc/corruptffffffff@2/explore", "pc", [][]int{{1, 2, 3}}, 6, bytepipe.Explore, 0xffffffff, 2, false},
+			scen{"sess/2w-6,0+3,4/explore", "sess", [][]int{{6, 0}, {3, 4}}, 0, bytepipe.Explore, -1, 0, false},
+			scen{"sess/corruptffffffff@0/explore", "sess", [][]int{{5, 3}}, 0, bytepipe.Explore, 0xffffffff, 0, false},
 		)
 	}
 	return s
